@@ -1,0 +1,48 @@
+//go:build verif
+// +build verif
+
+// Package c11 re-exports what the C11 harness needs from internal/plumbing and internal/core.
+package c11
+
+import (
+	"gopkg.in/src-d/hercules.v10/internal/core"
+	"gopkg.in/src-d/hercules.v10/internal/plumbing"
+	"gopkg.in/src-d/hercules.v10/internal/plumbing/identity"
+)
+
+// FileDiff is plumbing.FileDiff.
+type FileDiff = plumbing.FileDiff
+
+// FileDiffData is plumbing.FileDiffData.
+type FileDiffData = plumbing.FileDiffData
+
+// CachedBlob is plumbing.CachedBlob.
+type CachedBlob = plumbing.CachedBlob
+
+// LinesStatsCalculator is plumbing.LinesStatsCalculator.
+type LinesStatsCalculator = plumbing.LinesStatsCalculator
+
+// LineStats is plumbing.LineStats.
+type LineStats = plumbing.LineStats
+
+// ErrorBinary is plumbing.ErrorBinary.
+var ErrorBinary = plumbing.ErrorBinary
+
+// StripWhitespace is the unexported plumbing.stripWhitespace.
+var StripWhitespace = plumbing.VerifStripWhitespace
+
+// Names of dependencies and configuration options.
+const (
+	DependencyFileDiff           = plumbing.DependencyFileDiff
+	DependencyTreeChanges        = plumbing.DependencyTreeChanges
+	DependencyBlobCache          = plumbing.DependencyBlobCache
+	DependencyLineStats          = plumbing.DependencyLineStats
+	DependencyTick               = plumbing.DependencyTick
+	DependencyAuthor             = identity.DependencyAuthor
+	DependencyIsMerge            = core.DependencyIsMerge
+	DependencyCommit             = core.DependencyCommit
+	ConfigFileDiffDisableCleanup = plumbing.ConfigFileDiffDisableCleanup
+	ConfigFileWhitespaceIgnore   = plumbing.ConfigFileWhitespaceIgnore
+	ConfigFileDiffTimeout        = plumbing.ConfigFileDiffTimeout
+	ConfigLogger                 = core.ConfigLogger
+)
